@@ -16,7 +16,7 @@ CONFIGS = {
 # stream = (world, profile, cases, maxlen); quick tier counts (thorough multiplies by 8)
 PROPS = {
     'C01': dict(title='A handle resolves iff its entity is alive; stale handles never resolve',
-                coq=['props/C01.vo'], tags=[1],
+                coq=['props/C01.vo'], tags=[1, 8],
                 streams=[('w1', 'S1', 40, 60), ('w2', 'S1', 20, 60), ('w1', 'S7', 20, 60)],
                 configs=['dbg', 'rel'], need=['destroy', 'probe', 'create']),
     'C02': dict(title='Every access path returns the entity\'s own, latest component values',
